@@ -982,6 +982,11 @@ class Machine:
             return self.apply(f, None, args, env)
         full = cal or ""
         short = short_name(full)
+        hook = self.funcs.get("call:*")
+        if hook is not None:
+            res = hook.f(self, args, env, full)
+            if res is not NotImplemented:
+                return res
         r = env.find(short) if "::" not in full else None
         if r is not None:
             f = self.rv(r)
@@ -1115,6 +1120,37 @@ class Machine:
         h = self.funcs.get("enter:" + d.qname.split("::")[-1]) or self.funcs.get("enter:*")
         if h is not None:
             h.f(self, (d, full, new, caller_env), None, None)
+        # explicit template arguments f<a, b>(...): non-type parameters become constants of the callee
+        if getattr(d, "tparams", None) and full and caller_env is not None:
+            m = re.search(r"<(.*)>$", full.strip())
+            if m:
+                targs = []
+                depth, cur = 0, ""
+                for ch in m.group(1):
+                    if ch in "<(":
+                        depth += 1
+                    elif ch in ">)":
+                        depth -= 1
+                    if ch == "," and depth == 0:
+                        targs.append(cur)
+                        cur = ""
+                    else:
+                        cur += ch
+                if cur.strip():
+                    targs.append(cur)
+                for pn, ta in zip(d.tparams, targs):
+                    ta = ta.strip()
+                    val = None
+                    if re.match(r"^-?\d+$", ta):
+                        val = Fraction(int(ta))
+                    elif re.match(r"^[A-Za-z_]\w*$", ta):
+                        r_ = caller_env.find(ta)
+                        if r_ is not None and is_num(self.rv(r_)):
+                            val = self.rv(r_)
+                    elif ta in ("true", "false"):
+                        val = ta == "true"
+                    if val is not None and pn:
+                        new.bind(pn, Cell(val, True))
         self.bind_params(A.params(d.node), vals, new, d.qname)
         saved = self.this
         self.this = this
@@ -1372,7 +1408,12 @@ class Machine:
                 vk = v.get("kind")
                 if vk in ("VarDecl", "DecompositionDecl"):
                     self.declare(v, env)
-                elif vk in ("TypeAliasDecl", "TypedefDecl", "StaticAssertDecl", "UsingDecl", "UsingDirectiveDecl", "CXXRecordDecl", "EnumDecl", "UsingShadowDecl"):
+                elif vk in ("TypeAliasDecl", "TypedefDecl"):
+                    h = getattr(self, "on_type_alias", None)
+                    if h is not None:
+                        h(v.get("name"), re.sub(r"\s+", "", v.get("type", {}).get("qualType", "")), env)
+                    continue
+                elif vk in ("StaticAssertDecl", "UsingDecl", "UsingDirectiveDecl", "CXXRecordDecl", "EnumDecl", "UsingShadowDecl"):
                     continue
                 else:
                     raise Unab("declaration kind %s" % vk)
